@@ -297,6 +297,7 @@ func (e *env) replica(pub int, history []string) *env {
 	}
 	r.keyAddr, r.keyPub = map[triple]string{}, map[triple][]byte{}
 	r.issued, r.issuedAt, r.issuedGen, r.gen = map[string]bool{}, map[string]triple{}, map[string]int{}, map[int]int{}
+	r.acctVariant = map[int]int{}
 	r.freshID = 900
 	e.nrep++
 	r.nstore = 100000 + e.nrep
